@@ -245,10 +245,10 @@ pub fn fault_case(dir: &std::path::PathBuf, word: &[usize], leave_after: Option<
     (steps, None)
 }
 
-fn fault_words(max_n: usize) -> Vec<Vec<usize>> {
+fn fault_words(max_n: usize, all_upto: usize) -> Vec<Vec<usize>> {
     let mut words: Vec<Vec<usize>> = vec![vec![]];
     let mut level: Vec<Vec<usize>> = vec![vec![]];
-    for _ in 0..3 {
+    for _ in 0..all_upto {
         let mut next = vec![];
         for w in &level {
             for f in 0..FAULTS.len() {
@@ -260,7 +260,7 @@ fn fault_words(max_n: usize) -> Vec<Vec<usize>> {
         words.extend(next.iter().cloned());
         level = next;
     }
-    for n in 4..=max_n {
+    for n in (all_upto + 1)..=max_n {
         for f in 0..FAULTS.len() {
             words.push(vec![f; n]);
         }
@@ -269,7 +269,7 @@ fn fault_words(max_n: usize) -> Vec<Vec<usize>> {
 }
 
 fn fault_part(ctx: &Ctx) -> (u64, u64, Vec<Value>) {
-    let words = fault_words(70);
+    let words = fault_words(ctx.tier.pick(70, 100), ctx.tier.pick(3, 4));
     // every fault word alone, and with the extra peer leaving after each prefix of <= 3 failures
     let mut cases: Vec<(Vec<usize>, Option<usize>)> = vec![];
     for w in &words {
@@ -359,7 +359,7 @@ pub fn run(ctx: &Ctx) -> Outcome {
     o.set("fault_sequences", json!(fault_runs));
     o.set("evaluations", json!(sigma + docs.len() as u64));
     o.set("distinct_nontrivial", json!(accepted));
-    o.set("rule", json!(format!("(a) every string over the C16 alphabet of length 0..={} through TrackerResp::from_bencode (totality); structured replies = peers list of 0..3 entries drawn from 11 entry shapes (2 good, 9 malformed) or missing/ill-typed x 5 interval shapes x 5 failure-reason shapes (absent, text, empty, non-UTF-8, ill-typed), all distinct; non-trivial = structured replies read as success. (b) full-session world (real event_loop, tracker task, retry loop, handle_tracker_cmd, spawn_peer_handler over the seams): tracker outcome words F^n.S for every F-word of length <= 3 over the four fault kinds (refused, HTTP 500, garbage body, failure reason) and the four homogeneous words for every n in 4..=70, with a live connection P, each word alone and with another connection ending after 0..2 failures (a KillReq in the middle of the fault sequence); after every failure P toggles choke/unchoke and the manager must have processed it in that quiescent step; after S the listed peers must be contacted; states = fault words, transitions = events executed", max_len)));
+    o.set("rule", json!(format!("(a) every string over the C16 alphabet of length 0..={} through TrackerResp::from_bencode (totality); structured replies = peers list of 0..3 entries drawn from 11 entry shapes (2 good, 9 malformed) or missing/ill-typed x 5 interval shapes x 5 failure-reason shapes (absent, text, empty, non-UTF-8, ill-typed), all distinct; non-trivial = structured replies read as success. (b) full-session world (real event_loop, tracker task, retry loop, handle_tracker_cmd, spawn_peer_handler over the seams): tracker outcome words F^n.S for every F-word of length <= 3 (thorough 4) over the four fault kinds (refused, HTTP 500, garbage body, failure reason) and the four homogeneous words for every longer n up to 70 (thorough 100), with a live connection P, each word alone and with another connection ending after 0..2 failures (a KillReq in the middle of the fault sequence); after every failure P toggles choke/unchoke and the manager must have processed it in that quiescent step; after S the listed peers must be contacted; states = fault words, transitions = events executed", max_len)));
     o.set("sigma_strings", json!(sigma));
     o.set("structured_replies", json!(docs.len()));
     let picks = ctx.seeded_pick(docs.len(), 4);
